@@ -326,7 +326,7 @@ func (t *Transcoder) VerifRESTEncode(methodPath string, msg proto.Message) (esca
 func (t *Transcoder) VerifRESTDecode(httpMethod, escapedPath, rawQuery string, body []byte) (methodPath string, msg proto.Message, err error) {
 	target, vars, _ := t.restRoutes.match(escapedPath, httpMethod)
 	if target == nil {
-		return "", nil, errNotFound
+		return "", nil, errors.New("verif: no route")
 	}
 	conf := target.config
 	op := &operation{
